@@ -73,10 +73,20 @@ def set_int_mode(flag):
     INT_MODE = bool(flag)
 
 
+_LAST = {'key': None, 'arr': None}
+
+
 def points(xs, ys, dtype=float):
+    """The n x 2 array of a curve.  Consecutive requests for the same curve return the SAME array object, as a
+    user sweeping options over one curve would pass it: state keyed on the identity of the argument, or written
+    into it, then shows up in the next call (the oracles work from the xs / ys lists, never from this array)."""
+    key = (tuple(xs), tuple(ys), dtype, INT_MODE)
+    if _LAST['key'] == key:
+        return _LAST['arr']
     a = np.array([xs, ys], dtype=dtype).T.copy()
     if INT_MODE and dtype is float and a.size and bool(np.all(a == np.round(a))) and bool(np.all(np.abs(a) < 2 ** 40)):
-        return a.astype(np.int64)
+        a = a.astype(np.int64)
+    _LAST['key'], _LAST['arr'] = key, a
     return a
 
 
